@@ -114,7 +114,7 @@ Proof.
   split.
   - intros x. cbv zeta. destruct (Ha x) as (A1 & A2 & A3 & A4 & A5 & A6). destruct (Hb x) as [B1 B2].
     destruct (Shape x) as [[Q1 _]|[(Q1 & [Q2|Q2])|(Q1 & Q2 & Q3 & _)]]; rewrite Q1.
-    + repeat split; try reflexivity; [lia | tauto].
+    + repeat split; try reflexivity; try lia; try tauto.
     + rewrite Q2. repeat split; assumption.
     + rewrite Q2. unfold clean. cbn [res_value res_sig res_computedAt res_deps res_builtAt].
       rewrite drop_single_idem. repeat split; assumption.
